@@ -56,8 +56,13 @@ class Unencodable(object):
 # ------------------------------------------------------------------------------------------------------
 # world: inputs are pure functions of (resolved alias, captured arguments)
 
+BUILTIN_EXCEPTIONS = [KeyError, ValueError, LookupError, AttributeError, TypeError, AssertionError, RuntimeError, IndexError, OSError,
+                      ZeroDivisionError, StopIteration, NotImplementedError]
+
+
 class World(object):
-    def __init__(self, seed, poison=False, raise_rate=0.1, raw_rate=0.3, sharing=False):
+    def __init__(self, seed, poison=False, raise_rate=0.1, raw_rate=0.3, sharing=False, force_raise=None):
+        self.force_raise = force_raise      # every input raises this exception type (for exhaustive tables)
         self.seed = seed
         self.poison = poison
         self.raise_rate = raise_rate
@@ -68,11 +73,19 @@ class World(object):
         """-> ('value', v) | ('raise', exc_type). Fresh objects on every call (no identity shared between calls)."""
         if self.poison:
             return ('value', {'POISON': name})
+        if self.force_raise is not None and kind == 'in':
+            return ('raise', self.force_raise)
         text = '%s|%s|%s|%s' % (self.seed, kind, ralias, canon(captured))
         h = int(hashlib.sha256(text.encode('utf-8', 'backslashreplace')).hexdigest()[:12], 16)
         rng = random.Random(h)
         if rng.random() < self.raise_rate:
-            return ('raise', UserError if rng.random() < 0.7 else UserError2)
+            # mostly service-defined exceptions, sometimes builtin ones a framework might catch too broadly itself
+            r = rng.random()
+            if r < 0.5:
+                return ('raise', UserError)
+            if r < 0.65:
+                return ('raise', UserError2)
+            return ('raise', rng.choice(BUILTIN_EXCEPTIONS))
         g = Gen(rng, multi_sets=False)
         payload = g.value(2, sharing=self.sharing)
         if rng.random() < self.raw_rate:
